@@ -404,6 +404,14 @@ fn c03(tier: &str, thorough: bool) -> i32 {
         ops.push(Op::RemoveStream("/big0".into()));
         add_enum(&ctx, &mut tot, "growth seed", &EnumCfg { version: v, seed, ops, depth: if big { 1 } else { 2 }, oracles: o, extra_paths: vec![], one_reopen: false, extend_refused: false });
     }
+    // histories that start on a file written elsewhere whose sibling trees contain red nodes
+    for v in [3u16, 4] {
+        let st = crate::e2::explore_foreign_trees(&ctx, v, thorough);
+        tot.0 += st.files;
+        tot.1 += st.steps;
+        ctx.add("foreign_red_black_start_files", st.files);
+        ctx.add("foreign_red_black_sequences", st.cases);
+    }
     ctx.finish(tot.0, tot.1)
 }
 
@@ -876,6 +884,18 @@ fn c07(tier: &str, thorough: bool) -> i32 {
         let (names, depth): (&[&str], usize) = if thorough { (&["a", "b", "c", "d", "e"], 5) } else { (&["a", "b", "c", "d"], 4) };
         let st = crate::e1h::explore_many(ctx, v, names, depth);
         ctx.note(format!("v{} handles on all of {} one-mini-sector streams, depth {}: sequences={} actions={}", v, names.len(), depth, st.sequences, st.actions));
+        seqs += st.sequences;
+        acts += st.actions;
+    }
+    // handles held while the file's allocation structures grow: start one allocation short of a new
+    // FAT sector, the first / second DIFAT sector, a directory sector, a MiniFAT sector
+    let mut seeded: Vec<(u16, &str, usize, usize)> = vec![(3, "b63488", 70_000, 2), (3, "b7100000", 70_000, 2), (3, "b15300000", 70_000, 2), (3, "s7x0", 600, 3), (4, "s31x0", 5000, 3), (3, "s2x4032", 200, 3), (4, "s1x4032", 200, 3)];
+    if thorough {
+        seeded = seeded.into_iter().map(|(v, s, b, d)| (v, s, b, d + 1)).collect();
+    }
+    for (v, seed, big, depth) in seeded {
+        let st = crate::e1h::explore_seeded(ctx, v, seed, big, depth);
+        ctx.note(format!("v{} handles across structure growth, seed {} (appends of {} bytes), depth {}: sequences={} actions={}", v, seed, big, depth, st.sequences, st.actions));
         seqs += st.sequences;
         acts += st.actions;
     }
